@@ -49,6 +49,21 @@ func euiBody(g int) string {
 	return slurpRemainder(c)}`, 3*g-1, n, n-2, n-2, 3*g-3, n-1, 3*g-2, 8*g)), "")
 }
 
+// aParseBody: (*A).parse as src() prints it, the error text replaced.  net.ParseIP and the test for a colon are what
+// DnsModel.TextCodec.parseIPv4 stands for (dotted decimal, four fields of at most three digits, no leading zero, ≤ 255).
+func aParseBody() string {
+	return strings.Join(strings.Fields(`{l, _ := c.Next()
+	rr.A = net.ParseIP(l.token)
+	isIPv4 := !strings.Contains(l.token, ":")
+	if rr.A == nil || !isIPv4 || l.err {
+		return &ParseError{}
+	}
+	return slurpRemainder(c)}`), "")
+}
+
+// aStringBody: (*A).String; net.IP.String of a four-octet address is DnsModel.TextCodec.printIPv4
+const aStringBody = `{ifrr.A==nil{returnrr.Hdr.String()}returnrr.Hdr.String()+rr.A.String()}`
+
 var firstBodyRe = regexp.MustCompile(`^\{s,e:=endingToTxtSlice\(c,"bad([A-Z0-9]+)([A-Za-z]+)"\)ife!=nil\{returne\}ifln:=len\(s\);ln==0\{returnnil\}rr\.([A-Za-z]+)=s\[0\]returnnil\}$`)
 
 type tstep struct {
@@ -94,6 +109,8 @@ func (s tstep) lean() string {
 		return fmt.Sprintf(".euiTok %d", s.Bits)
 	case "nodeid":
 		return ".nodeId"
+	case "ipv4":
+		return ".ipv4"
 	case "salt":
 		return ".salt"
 	case "tokstr":
@@ -147,6 +164,9 @@ func (p *pkgInfo) parsePlanOf(fd *ast.FuncDecl, depth int) ([]tstep, bool) {
 		}
 		// (*EUI48).parse / (*EUI64).parse: the error texts aside, the body must be the expected one
 		norm := parseErrRe.ReplaceAllString(body, "&ParseError{}")
+		if norm == aParseBody() {
+			return []tstep{{Kind: "ipv4", Field: "A"}, {Kind: "slurp"}}, true
+		}
 		for _, g := range []int{6, 8} {
 			if norm == euiBody(g) {
 				return []tstep{{Kind: "euitok", Bits: g, Field: "Address"}, {Kind: "slurp"}}, true
@@ -392,6 +412,9 @@ func (p *pkgInfo) printPlanOf(fd *ast.FuncDecl, typ string) ([]tstep, bool) {
 		if bits := p.fieldBits(typ, m[1]); bits == 16 && p.fieldBits(typ, m[3]) == 64 {
 			return []tstep{{Kind: "uint", Bits: 16, Field: m[1]}, {Kind: "blank"}, {Kind: "hexgroups", Bits: 16, Group: 4, Sep: ':', Upper: m[2] == "X", Field: m[3]}}, true
 		}
+	}
+	if typ == "A" && p.src(fd.Body) == aStringBody {
+		return []tstep{{Kind: "ipv4", Field: "A"}}, true
 	}
 	var leaves []ast.Expr
 	var parts []ast.Expr
